@@ -54,14 +54,16 @@ def _sheet_class(sheet):
 
 
 def _a1(c1, r1, c2, r2, dollars=0, lower=False, force_range=False):
-    def cell(c, r, d):
+    """lower: True = both corners, 'first' / 'second' = one corner only"""
+    def cell(c, r, d, low):
         col = rr.col_name(c)
-        if lower:
+        if low:
             col = col.lower()
         return '%s%s%s%d' % ('$' if d & 1 else '', col, '$' if d & 2 else '', r)
+    l1, l2 = lower in (True, 'first'), lower in (True, 'second')
     if (c1, r1) == (c2, r2) and not force_range:
-        return cell(c1, r1, dollars & 3)
-    return '%s:%s' % (cell(c1, r1, dollars & 3), cell(c2, r2, dollars >> 2))
+        return cell(c1, r1, dollars & 3, l1)
+    return '%s:%s' % (cell(c1, r1, dollars & 3, l1), cell(c2, r2, dollars >> 2, l2))
 
 
 def _sheet_prefixes(sheet, needs_q, rng):
@@ -95,8 +97,13 @@ def spellings(cls, rng, full=False):
             continue
         refs.append(('dollar', _a1(c1, r1, c2, r2, dd), {}, f0))
     refs.append(('lower', _a1(c1, r1, c2, r2, rng.randrange(16), True), {}, f0))
+    refs.append(('lower', _a1(c1, r1, c2, r2, rng.randrange(16),
+                              rng.choice(('first', 'second'))), {}, f0))
     if single:
         refs.append(('a1:a1', _a1(c1, r1, c2, r2, 0, False, True), {}, 'cell-as-range'))
+        refs.append(('a1:a1', _a1(c1, r1, c2, r2, rng.randrange(16),
+                                  rng.choice(('first', 'second')), True), {},
+                     'cell-as-range'))
         refs.append(('lower', _a1(c1, r1, c2, r2, rng.randrange(16), True, True), {},
                      'cell-as-range'))
         refs.append(('r1c1', 'R%dC%d' % (r1, c1), {}, 'cell'))
